@@ -1,5 +1,5 @@
-\* Histories with REJECTED CreateInstance calls (id / key collisions, also across namespaces):
-\* the repository after a rejected create gives the same traversal results.  Must hold.
+\* The pinned tree: ModifyInstance replaces only the copies of the namespaces of the NEW ends: a stale copy
+\* stays in a namespace that is no longer referenced.  ImplEqualsDecl must be VIOLATED.
 SPECIFICATION Spec
 CONSTANTS
   LegacyBreak = FALSE
@@ -7,15 +7,15 @@ CONSTANTS
   NoShadow = FALSE
   NoPreCheck = FALSE
   XParU = {}
-  ModEnds = "off"
+  ModEnds = "asis"
   ShallowSub = FALSE
   IgnoreNs = FALSE
   ModSharedPath = FALSE
   MaxMod = 0
   NodeU <- NodeU5
-  MaxAssoc = 2
+  MaxAssoc = 1
   CreateNs = {1, 2}
-  ClsU = {"AB", "AL"}
+  ClsU = {"AL"}
   AcU <- AcSmall
   RcU <- RcSmall
   RlU <- RlSmall
